@@ -62,7 +62,9 @@ def candidates(ctx, tier):
                 out.append(wrap(w2, wrap(w, x)))
     subs = ["pk(A)", "pk(B)", "pk_k(B)", "pk_h(B)", "v:pk(B)", "s:pk(B)", "a:pk(B)", "older(5)", "v:older(5)", "sha256(H)",
             "a:sha256(H)", "0", "1", "n:older(5)", "j:pk(B)", "dv:older(5)", "v:sha256(H)", "sdv:older(5)", "sln:older(5)",
-            "vc:pk_h(B)", "a:0"]
+            "vc:pk_h(B)", "a:0",
+            # the largest lock values: a B fragment must be usable wherever B is allowed (numeric opcodes read 4 bytes)
+            "after(2147483647)", "after(2147483648)", "a:after(2147483648)"]
     subs.append("multi(1,B,C)" if ctx != "tap" else "multi_a(1,B,C)")
     for op in ("and_v", "and_b", "or_b", "or_c", "or_d", "or_i"):
         for x, y in itertools.product(subs, repeat=2):
